@@ -182,7 +182,7 @@ def r5b_single_entry_enum(rep):
             for e in pn[1:]:
                 env[e] = ('opaque',)
             try:
-                it.val(b['body'], env)
+                it.run_body(b, env)
             except (Unanalysable, EvalPanic) as ex:
                 rep.incomplete(R, f'{d}|{n}', f'cannot evaluate: {ex}', f.loc(b))
                 continue
